@@ -440,6 +440,17 @@ func compareLayouts(c *Ctx, rule, key, pos string, enc, dec []codec.Atom) {
 			// compatible whenever the value's length equals the window (consistency precondition)
 			ds = es
 		}
+		if es != ds && i < len(enc) && i < len(dec) && enc[i].Kind == "fixed" && dec[i].Kind == "fixed" && enc[i].Field == "" && dec[i].Field != "" &&
+			enc[i].Width == dec[i].Width && enc[i].Order == dec[i].Order && strings.HasPrefix(enc[i].Expr, "len(") && strings.HasSuffix(enc[i].Expr, ")") {
+			// the encoder writes len(X) itself rather than a field it has just set to len(X): the same
+			// slot, provided the decoder uses what it reads there as the length of X
+			x := enc[i].Expr[4 : len(enc[i].Expr)-1]
+			for _, d := range dec {
+				if d.Kind == "bytes" && d.Field == x && d.WidthStr == dec[i].Field {
+					ds = es
+				}
+			}
+		}
 		if es != ds {
 			r.Fail(rule, key, pos, fmt.Sprintf("atom #%d: encoder [%s] vs decoder [%s]", i, es, ds))
 			return
